@@ -90,7 +90,10 @@ theorem tstep_loop (s : TLoop) (l : TLabel) :
   | dropHandle i => simp only [tstep]; split <;> exact Or.inl rfl
   | localOpen i => simp only [tstep]; split <;> exact Or.inl rfl
   | forceClose i => simp only [tstep]; split <;> exact Or.inl rfl
-  | dropSub i => simp only [tstep]; split <;> exact Or.inl rfl
+  | dropSub i => simp only [tstep]; split <;> (try split) <;> exact Or.inl rfl
+  | halfClose i => simp only [tstep]; split <;> (try split) <;> exact Or.inl rfl
+  | fill i => exact Or.inr (Or.inr ⟨_, by simp only [tstep]; rw [cleanup_loop]⟩)
+  | fillMgr => exact Or.inr (Or.inr ⟨_, by simp only [tstep]; rw [cleanup_loop]⟩)
   | dropRx i => exact Or.inr (Or.inr ⟨_, by simp only [tstep]; rw [cleanup_loop]⟩)
 
 theorem tstep_pinv (s : TLoop) (l : TLabel) (h : PInv s.loop) : PInv (tstep s l).loop := by
@@ -176,9 +179,10 @@ theorem le_sum_of_mem {α : Type} (f : α → Nat) : ∀ (l : List α) (x : α),
 
 theorem busy_permits (ka : List Bool) (x : Sub) (h : Busy ka x) : 0 < x.permits ka := by
   unfold Sub.permits
-  rcases h with h | ⟨hk, h | h⟩
+  rcases h with h | ⟨hk, h | h | h⟩
   · simp [h]
   · rw [h]; simp only []; omega
+  · simp [h, hk]
   · simp [h, hk]
 
 theorem busy_strong_pos (s : TLoop) (x : Sub) (hx : x ∈ s.subs) (h : Busy s.ka x) : 0 < s.strong := by
@@ -371,19 +375,48 @@ theorem negotiating_persists (s : TLoop) (l : TLabel) (k : Nat) (x : Sub)
   | forceClose i => simp only [tstep]; split <;> exact hk
   | dropSub i =>
     simp only [tstep]
-    cases hf : firstAt s.subs i .held with
-    | none => exact hk
+    cases hf0 : firstAt s.subs i .heldHalf with
     | some k' =>
-      obtain ⟨y, hy, hst⟩ := firstAt_stage _ _ _ _ hf
+      obtain ⟨y, hy, hst⟩ := firstAt_stage _ _ _ _ hf0
       have hne : k' ≠ k := by
         intro e; rw [e, hk] at hy; cases hy; rw [hx] at hst; cases hst
       simp only []
       rw [setStage_other _ _ _ _ hne]; exact hk
+    | none =>
+      simp only []
+      cases hf : firstAt s.subs i .held with
+      | none => exact hk
+      | some k' =>
+        obtain ⟨y, hy, hst⟩ := firstAt_stage _ _ _ _ hf
+        have hne : k' ≠ k := by
+          intro e; rw [e, hk] at hy; cases hy; rw [hx] at hst; cases hst
+        simp only []
+        rw [setStage_other _ _ _ _ hne]; exact hk
+  | halfClose i =>
+    simp only [tstep]
+    cases hf0 : firstAt s.subs i .heldHalf with
+    | some k' => exact hk
+    | none =>
+      simp only []
+      cases hf : firstAt s.subs i .held with
+      | none => exact hk
+      | some k' =>
+        obtain ⟨y, hy, hst⟩ := firstAt_stage _ _ _ _ hf
+        have hne : k' ≠ k := by
+          intro e; rw [e, hk] at hy; cases hy; rw [hx] at hst; cases hst
+        simp only []
+        rw [setStage_other _ _ _ _ hne]; exact hk
+  | fill i =>
+    simp only [tstep] at hrun ⊢
+    exact cleanup_keep _ k x hrun hk
+  | fillMgr =>
+    simp only [tstep] at hrun ⊢
+    exact cleanup_keep _ k x hrun hk
   | dropRx i =>
     simp only [tstep] at hrun ⊢
     apply cleanup_keep _ k x hrun
     simp only [List.getElem?_map, hk, Option.map_some]
-    have : ¬ (x.proto = some i ∧ (x.stage = .queued ∨ x.stage = .held)) := by
+    have : ¬ (x.proto = some i ∧ (x.stage = .queued ∨ x.stage = .held ∨ x.stage = .heldHalf)) := by
       rw [hx]; simp
     simp [this]
 
@@ -399,6 +432,215 @@ theorem trun_negotiating (ls : List TLabel) : ∀ (s : TLoop) (k : Nat) (x : Sub
     have hmid : (tstep s l).loop.exited = none := trun_exited ls _ hrun
     exact ih _ k x (negotiating_persists s l k x hk hx hl.1 hl.2 hmid) hx
       (fun l' hl' => hls l' (List.mem_cons_of_mem _ hl')) hrun
+
+theorem cleanup_ka (s : TLoop) : (cleanup s).ka = s.ka := by
+  unfold cleanup; split <;> rfl
+
+theorem tstep_ka (s : TLoop) (l : TLabel) : (tstep s l).ka = s.ka := by
+  cases l <;> simp only [tstep, tAccept, tNegOk, tNegFail, tTakeCmd, tIdleExit, tRecv] <;>
+    (repeat' split) <;> first | rfl | (rw [cleanup_ka])
+
+theorem trun_ka (s : TLoop) (ls : List TLabel) : (trun s ls).ka = s.ka := by
+  induction ls generalizing s with
+  | nil => rfl
+  | cons l ls ih => exact (ih _).trans (tstep_ka s l)
+
+/-! ### a half-closed substream stays where it is until its owner drops it -/
+
+theorem firstAt_spec (subs : List Sub) (i : Nat) (st : Stage) (k : Nat) (h : firstAt subs i st = some k) :
+    ∃ y, subs[k]? = some y ∧ y.stage = st ∧ y.proto = some i := by
+  unfold firstAt at h
+  have := List.findIdx?_eq_some_iff_getElem.mp h
+  obtain ⟨hk, hp, _⟩ := this
+  refine ⟨subs[k], by simp [hk], ?_⟩
+  simp only [Bool.and_eq_true, beq_iff_eq] at hp
+  exact hp
+
+theorem cleanup_keep_stable (t : TLoop) (k : Nat) (x : Sub) (hx : x.stage ≠ .negotiating)
+    (h : t.subs[k]? = some x) : (cleanup t).subs[k]? = some x := by
+  unfold cleanup
+  split
+  · simp only [List.getElem?_map, h, Option.map_some]
+    simp [hx]
+  · exact h
+
+/-- Every transition other than its owner dropping it (or shutting down) leaves a half-closed substream, with its
+lifetime permit, where it is — whether or not the loop has returned in the meantime. -/
+theorem heldHalf_persists (s : TLoop) (l : TLabel) (k : Nat) (x : Sub)
+    (hk : s.subs[k]? = some x) (hx : x.stage = .heldHalf)
+    (hl : ∀ i, x.proto = some i → l ≠ .dropSub i ∧ l ≠ .dropRx i) : (tstep s l).subs[k]? = some x := by
+  have hlt : k < s.subs.length := (List.getElem?_eq_some_iff.mp hk).1
+  have happ : ∀ y, (s.subs ++ [y])[k]? = some x := fun y => by
+    rw [List.getElem?_append_left hlt]; exact hk
+  have hxn : x.stage ≠ .negotiating := by rw [hx]; simp
+  have hne_of : ∀ (k' : Nat) (y : Sub), s.subs[k']? = some y → y.stage ≠ .heldHalf → k' ≠ k := by
+    intro k' y hy hst e
+    rw [e, hk] at hy; cases hy; exact hst hx
+  cases l with
+  | accept =>
+    simp only [tstep, tAccept]
+    split
+    · exact hk
+    · split
+      · exact cleanup_keep_stable _ k x hxn (happ _)
+      · exact cleanup_keep_stable _ k x hxn hk
+  | yamuxEof =>
+    simp only [tstep]; split
+    · exact cleanup_keep_stable _ k x hxn hk
+    · exact hk
+  | yamuxErr =>
+    simp only [tstep]; split
+    · exact cleanup_keep_stable _ k x hxn hk
+    · exact hk
+  | negOk k' p =>
+    simp only [tstep, tNegOk]
+    split
+    · exact hk
+    · cases hy : s.subs[k']? with
+      | none => exact hk
+      | some y =>
+        simp only []
+        by_cases h3 : y.stage ≠ .negotiating
+        · rw [if_pos h3]; exact hk
+        · rw [if_neg h3]
+          have hne : k' ≠ k := hne_of k' y hy (by
+            have : y.stage = .negotiating := by simpa using h3
+            rw [this]; simp)
+          apply cleanup_keep_stable _ k x hxn
+          show (s.subs.set k' _)[k]? = some x
+          rw [List.getElem?_set_ne hne]; exact hk
+  | negFail k' =>
+    simp only [tstep, tNegFail]
+    split
+    · exact hk
+    · cases hy : s.subs[k']? with
+      | none => exact hk
+      | some y =>
+        simp only []
+        by_cases h3 : y.stage ≠ .negotiating
+        · rw [if_pos h3]; exact hk
+        · rw [if_neg h3]
+          have hne : k' ≠ k := hne_of k' y hy (by
+            have : y.stage = .negotiating := by simpa using h3
+            rw [this]; simp)
+          apply cleanup_keep_stable _ k x hxn
+          show (s.subs.set k' _)[k]? = some x
+          rw [List.getElem?_set_ne hne]; exact hk
+  | takeCmd =>
+    simp only [tstep, tTakeCmd]
+    split
+    · exact hk
+    · cases hq : s.cmdQ with
+      | nil => exact hk
+      | cons c q =>
+        cases c with
+        | openSub i => exact cleanup_keep_stable _ k x hxn (happ _)
+        | forceClose => exact cleanup_keep_stable _ k x hxn hk
+  | idleExit =>
+    simp only [tstep, tIdleExit]
+    split
+    · exact cleanup_keep_stable _ k x hxn hk
+    · exact hk
+  | recv i =>
+    simp only [tstep, tRecv]
+    cases hc : s.loop.ps.chans[i]? with
+    | none => exact hk
+    | some c =>
+      simp only []
+      by_cases halive : c.alive = false
+      · rw [if_pos halive]; exact hk
+      · rw [if_neg halive]
+        cases hq : c.queue.head? with
+        | none => exact hk
+        | some m =>
+          cases m with
+          | established => exact cleanup_keep_stable _ k x hxn hk
+          | substreamOpened =>
+            apply cleanup_keep_stable _ k x hxn
+            simp only []
+            cases hf : firstAt s.subs i .queued with
+            | none => exact hk
+            | some k' =>
+              obtain ⟨y, hy, hst, _⟩ := firstAt_spec _ _ _ _ hf
+              have hne : k' ≠ k := hne_of k' y hy (by rw [hst]; simp)
+              simp only []
+              rw [setStage_other _ _ _ _ hne]; exact hk
+          | closed => exact cleanup_keep_stable _ k x hxn hk
+          | openFailure => exact cleanup_keep_stable _ k x hxn hk
+          | filler => exact cleanup_keep_stable _ k x hxn hk
+  | recvMgr => simp only [tstep]; exact cleanup_keep_stable _ k x hxn hk
+  | fill i => simp only [tstep]; exact cleanup_keep_stable _ k x hxn hk
+  | fillMgr => simp only [tstep]; exact cleanup_keep_stable _ k x hxn hk
+  | downgrade i => simp only [tstep]; split <;> exact hk
+  | upgrade i => simp only [tstep]; split <;> exact hk
+  | dropHandle i => simp only [tstep]; split <;> exact hk
+  | localOpen i => simp only [tstep]; split <;> exact hk
+  | forceClose i => simp only [tstep]; split <;> exact hk
+  | dropSub i =>
+    simp only [tstep]
+    cases hf0 : firstAt s.subs i .heldHalf with
+    | some k' =>
+      obtain ⟨y, hy, _, hpr⟩ := firstAt_spec _ _ _ _ hf0
+      have hne : k' ≠ k := by
+        intro e; rw [e, hk] at hy; cases hy
+        exact (hl i hpr).1 rfl
+      simp only []
+      rw [setStage_other _ _ _ _ hne]; exact hk
+    | none =>
+      simp only []
+      cases hf : firstAt s.subs i .held with
+      | none => exact hk
+      | some k' =>
+        obtain ⟨y, hy, hst, _⟩ := firstAt_spec _ _ _ _ hf
+        have hne : k' ≠ k := hne_of k' y hy (by rw [hst]; simp)
+        simp only []
+        rw [setStage_other _ _ _ _ hne]; exact hk
+  | halfClose i =>
+    simp only [tstep]
+    cases hf0 : firstAt s.subs i .heldHalf with
+    | some k' => exact hk
+    | none =>
+      simp only []
+      cases hf : firstAt s.subs i .held with
+      | none => exact hk
+      | some k' =>
+        obtain ⟨y, hy, hst, _⟩ := firstAt_spec _ _ _ _ hf
+        have hne : k' ≠ k := hne_of k' y hy (by rw [hst]; simp)
+        simp only []
+        rw [setStage_other _ _ _ _ hne]; exact hk
+  | dropRx i =>
+    simp only [tstep]
+    apply cleanup_keep_stable _ k x hxn
+    simp only [List.getElem?_map, hk, Option.map_some]
+    have : ¬ (x.proto = some i ∧ (x.stage = .queued ∨ x.stage = .held ∨ x.stage = .heldHalf)) := by
+      intro ⟨hp, _⟩
+      exact (hl i hp).2 rfl
+    simp [this]
+
+theorem trun_heldHalf (ls : List TLabel) : ∀ (s : TLoop) (k : Nat) (x : Sub),
+    s.subs[k]? = some x → x.stage = .heldHalf →
+    (∀ l ∈ ls, ∀ i, x.proto = some i → l ≠ .dropSub i ∧ l ≠ .dropRx i) →
+    (trun s ls).subs[k]? = some x := by
+  induction ls with
+  | nil => intro s k x hk _ _; exact hk
+  | cons l ls ih =>
+    intro s k x hk hx hls
+    exact ih _ k x (heldHalf_persists s l k x hk hx (hls l (List.mem_cons_self ..))) hx
+      (fun l' hl' => hls l' (List.mem_cons_of_mem _ hl'))
+
+/-- Half-closing turns the oldest held substream of the protocol into a half-closed one: same object, same protocol
+(hence the same lifetime permit), nothing else changes. -/
+theorem halfClose_keeps (s : TLoop) (i k : Nat) (h0 : firstAt s.subs i .heldHalf = none)
+    (h1 : firstAt s.subs i .held = some k) :
+    ∃ x, s.subs[k]? = some x ∧ x.stage = .held ∧ x.proto = some i ∧
+      (tstep s (.halfClose i)).subs[k]? = some { x with stage := .heldHalf } ∧
+      (tstep s (.halfClose i)).loop = s.loop ∧ (tstep s (.halfClose i)).handles = s.handles ∧
+      (tstep s (.halfClose i)).cmdQ = s.cmdQ := by
+  obtain ⟨x, hx, hst, hpr⟩ := firstAt_spec _ _ _ _ h1
+  refine ⟨x, hx, hst, hpr, ?_, ?_, ?_, ?_⟩ <;> simp only [tstep, h0, h1]
+  obtain ⟨hlt, hget⟩ := List.getElem?_eq_some_iff.mp hx
+  simp only [setStage, hx]
+  rw [List.getElem?_set_self hlt]
 
 /-- A successful negotiation hands the substream, with its permits, to the protocol's channel. -/
 theorem negOk_queues (s : TLoop) (k p : Nat) (x : Sub) (hr : s.running = true)
